@@ -118,6 +118,30 @@ def run(ctx, B):
             if np.any((rr["flags"] & F_SAN) != 0) or np.any(rr["leak"] != 0):
                 ctx.violation("%s|Crystal_MakeCopy|hostile-crystal" % cfg, "Crystal_MakeCopy of a hostile user crystal: sanitizer report or leak")
         if cfg == "A":
+            # --- formula strings: the C07 corpus with all its single-byte mutations, under leak accounting and ASan
+            import c07
+            fstr = c07.corpus_for_memory_checks(quick)
+            ctx.notes["formula_strings"] = len(fstr)
+            for X_, var in ((XP, "plain"), (XA, "asan")):
+                for opn, sg, cols in (("CompoundParser", "s", [fstr]), ("NISTByName", "s", [fstr[::7]])):
+                    rr, crashed, skipped = X_.op_safe(opn, sg, *cols)
+                    ctx.add(evaluations=len(cols[0]))
+                    for j in crashed:
+                        sj = cols[0][j].decode("latin-1")
+                        ctx.violation("%s|string|crash|%s" % (opn, var), "%s(%r) kills the process (%s build)" % (opn, sj, var), dict(cfg="A", variant=var, calls=[dict(op=opn, sig=sg, args=[sj])]))
+                    bad = np.nonzero(((rr["flags"] & F_SAN) != 0) | (rr["leak"] != 0))[0]
+                    for j in bad[:40]:
+                        sj = cols[0][j].decode("latin-1")
+                        sym = "sanitizer" if rr["flags"][j] & F_SAN else "leak"
+                        ctx.violation("%s|string|%s|%s" % (opn, sym, var), "%s(%r): %s (leak=%d)" % (opn, sj, sym, rr["leak"][j]), dict(cfg="A", variant=var, calls=[dict(op=opn, sig=sg, args=[sj])]))
+                rr, crashed, skipped = X_.call_safe("CS_Total_CP", fstr[::3], np.full(len(fstr[::3]), 10.0))
+                ctx.add(evaluations=len(fstr[::3]))
+                for j in crashed:
+                    ctx.violation("CS_Total_CP|string|crash|%s" % var, "CS_Total_CP(%r, 10) kills the process" % fstr[::3][j].decode("latin-1"), dict(cfg="A", variant=var, calls=[dict(fn="CS_Total_CP", args=[fstr[::3][j].decode("latin-1"), 10.0])]))
+                bad = np.nonzero(((rr["flags"] & F_SAN) != 0) | (rr["leak"] != 0))[0]
+                for j in bad[:20]:
+                    ctx.violation("CS_Total_CP|string|%s|%s" % ("sanitizer" if rr["flags"][j] & F_SAN else "leak", var), "CS_Total_CP(%r, 10)" % fstr[::3][j].decode("latin-1"),
+                                  dict(cfg="A", variant=var, calls=[dict(fn="CS_Total_CP", args=[fstr[::3][j].decode("latin-1"), 10.0])]))
             # --- crystal file contents: every line sequence up to the bound, with and without trailing newline
             L = 4 if quick else 6
             files = []
